@@ -338,6 +338,16 @@ func (pConn *PFCPConn) handleSessionModificationRequest(msg message.Message) (me
 
 		f.fseidIP = fseidIP
 
+		// Update Forwarding Parameters carry the Destination Interface only when it changes: without
+		// it the FAR keeps its interface and the source address of its tunnel.
+		if !hasDestinationInterface(uFAR) {
+			for _, stored := range session.fars {
+				if stored.farID == f.farID {
+					f.dstIntf, f.tunnelIP4Src = stored.dstIntf, stored.tunnelIP4Src
+				}
+			}
+		}
+
 		err = session.UpdateFAR(&f, &endMarkerList)
 		if err != nil {
 			logger.PfcpLog.Errorln("session PDR update failed", err)
